@@ -302,6 +302,49 @@ def check(run):
         elif kind == "minus" and a.startswith("ok"):
             run.violation("failing-input", {"kind": "x64-accepted-without-feature", "line": r.split(";", 3)[3].strip()[:40], "feature": what},
                           f"`{r[3:]}` is accepted although feature {what} is disabled", {"stream": "plug", "input": [r], "impl": [a]})
+    # `.feature none` judged against the TABLE (not against the implementation's own error message): a line whose mnemonic has no
+    # form without required features must be rejected once every feature is disabled
+    try:
+        xrows = tables.dump("x64")
+    except Exception:      # noqa (reported by the table translation step)
+        xrows = []
+    min_feat = {}
+    for r_ in xrows:
+        min_feat[r_["m"]] = min(min_feat.get(r_["m"], 1 << 62), 0 if r_["features"] == 0 else 1)
+    n_none = 0
+    for (p, a, r) in zip(xplan, xans, xreqs):
+        if p[2] != "none":
+            continue
+        words = r.split(";", 3)[3].strip().split()
+        prefixes = {"lock", "rep", "repe", "repz", "repne", "repnz", "ss", "cs", "ds", "es", "fs", "gs"}
+        mn = next((w for w in words if w not in prefixes), "")
+        if min_feat.get(mn) == 1:
+            n_none += 1
+            if a.startswith("ok"):
+                run.violation("failing-input", {"kind": "x64-accepted-without-feature", "line": r.split(";", 3)[3].strip()[:40], "feature": "none"},
+                              f"`{r[3:]}` is accepted although every form of `{mn}` requires a feature and none is enabled", {"stream": "plug", "input": [r], "impl": [a]})
+                break
+    stats["x64_none_must_reject"] = n_none
+    # `.feature` REPLACES the feature set: a second directive makes the first one irrelevant (both backends, through the directive itself)
+    rreqs, rplan = [], []
+    for (p, a, r) in list(zip(xplan, xans, xreqs))[:: max(1, len(xreqs) // 300)]:
+        if p[2] == "none":
+            line = r.split(";", 3)[3].strip()
+            rreqs.append(f"cl ; .arch {p[1]} ; .feature sse2, avx ; .feature none ; {line}")
+            rplan.append(("x64", a, r))
+    for (p, a, r) in list(zip(plan, answers, reqs))[:: max(1, len(reqs) // 600)]:
+        spelled = r.split(".feature", 1)[1].split(";")[0].strip()
+        line = r.split(";", 3)[3].strip()
+        rreqs.append(f"cl ; .arch {p[1]} ; .feature {all_spelling} ; .feature {spelled} ; {line}")
+        rplan.append(("riscv", a, r))
+    rans = plug(rreqs)
+    stats["replacement_requests"] = len(rreqs)
+    for ((arch_, want, single), got, r) in zip(rplan, rans, rreqs):
+        if got != want:
+            run.violation("failing-input", {"kind": "feature-not-replaced", "arch": arch_},
+                          f"`{r[3:]}` answers {got[:80]} but with only the last `.feature` directive ({single[3:]}) the answer is {want[:80]}: a later `.feature` must replace the set",
+                          {"stream": "plug", "input": [r, single], "impl": [got, want]})
+            break
     # the corpus is all valid x64: everything must be accepted in x64 mode with default features
     for (p, a, r) in zip(xplan, xans, xreqs):
         if p[1] == "x64" and p[2] == "all-default" and a.startswith("panic"):
